@@ -45,9 +45,13 @@ def lookup_static(chm, static_path):
 def extract(node: ast.Node, chm):
     """{path: (value, valid)} for every potential choice site of `node` found in `chm`.
     Sites sharing a static path (switch branches) are read once."""
+    return extract_sites(node.sites(), chm)
+
+
+def extract_sites(sites, chm):
     out = {}
     seen = {}
-    for site in node.sites():
+    for site in sites:
         sp = site.static_path
         dims = site.idx_dims
         key = (sp, dims)
@@ -84,6 +88,10 @@ def valid_assignment(ex):
 # ----------------------------------------------------------------------------- constraints
 
 
+def _flagval(f):
+    return getattr(f, "v", f)
+
+
 def _real_value(v):
     import jax.numpy as jnp
 
@@ -111,6 +119,33 @@ def build_constraint(values: dict, form="scalar", masks=None):
     masks = masks or {}
     chm = ChoiceMap.empty()
     items = list(values.items())
+    if form == "full":
+        # sites under exactly one index level whose every index is present are written as one
+        # array-valued entry at the static path (optionally one vector-flag Mask): C["a","x"]
+        groups = {}
+        rest = []
+        for p, v in items:
+            ipos = [i for i, c in enumerate(p) if not isinstance(c, str)]
+            if len(ipos) != 1:
+                rest.append((p, v))
+                continue
+            key = (p[: ipos[0]], p[ipos[0] + 1 :])
+            groups.setdefault(key, {})[p[ipos[0]]] = (p, v)
+        for (pre, post), d in groups.items():
+            n = max(d) + 1
+            shapes = {np.asarray(v).shape for _, v in d.values()}
+            if sorted(d) != list(range(n)) or len(shapes) != 1 or n < 1:
+                rest.extend(d.values())
+                continue
+            vals = _real_value(np.stack([np.asarray(d[i][1]) for i in range(n)]))
+            if any(d[i][0] in masks for i in range(n)):
+                flags = jnp.asarray([bool(np.asarray(_flagval(masks.get(d[i][0], True)))) for i in range(n)])
+                vals = Mask(vals, flags)
+            b = C
+            for c in pre + post:
+                b = b[c]
+            chm = chm | (b.set(vals) if (pre + post) else ChoiceMap.choice(vals))
+        items = rest
     if form == "array":
         groups = {}
         rest = []
@@ -137,7 +172,8 @@ def build_constraint(values: dict, form="scalar", masks=None):
     for p, v in items:
         rv = _real_value(v)
         if p in masks:
-            rv = Mask(rv, masks[p])
+            f = masks[p]
+            rv = Mask(rv, f.v if hasattr(f, "v") else jnp.asarray(bool(f)))
         if len(p) == 0:
             chm = chm | ChoiceMap.choice(rv)
             continue
